@@ -253,7 +253,14 @@ impl<'t> Gen<'t> {
                 }
             }
         }
+        // adjacent texts are merged by the normalisation: re-check the merged text (`$t` + `(` ...)
         normalize_pieces(out)
+            .into_iter()
+            .map(|p| match p {
+                Piece::Text(t) => Piece::Text(sanitize_text(&t)),
+                other => other,
+            })
+            .collect()
     }
 
     pub fn int_in(&mut self, lo: i128, hi: i128) -> i128 {
@@ -437,6 +444,18 @@ impl<'t> Gen<'t> {
             p = normalize_pieces(p);
         }
         p
+    }
+
+    /// normalise and re-check merged literal text
+    pub fn finish_pieces(p: Vec<Piece>) -> Vec<Piece> {
+        normalize_pieces(p)
+            .into_iter()
+            .map(|p| match p {
+                Piece::Text(t) => Piece::Text(sanitize_text(&t)),
+                Piece::Comp { name, ws, children } => Piece::Comp { name, ws, children: Self::finish_pieces(children) },
+                other => other,
+            })
+            .collect()
     }
 
     pub fn plural_decl(&mut self, tag: &str, rich: bool) -> PluralDecl {
@@ -859,7 +878,7 @@ impl<'t> Gen<'t> {
                     // in this locale must follow the fallback chain to a value that is itself a reference
                     Value::Null
                 } else if ok && container == 1 {
-                    let body = normalize_pieces(pieces);
+                    let body = Self::finish_pieces(pieces);
                     let mut other = body.clone();
                     other.push(self.var_piece("count"));
                     Value::Plural(PluralDecl {
@@ -867,7 +886,7 @@ impl<'t> Gen<'t> {
                         forms: vec![(Form::One, body), (Form::Other, normalize_pieces(other))],
                     })
                 } else if ok && container == 2 {
-                    let body = normalize_pieces(pieces);
+                    let body = Self::finish_pieces(pieces);
                     let fb = vec![Piece::Text(self.text(&tag))];
                     Value::Range(RangeDecl {
                         ty: RangeTy::I32,
@@ -890,7 +909,7 @@ impl<'t> Gen<'t> {
                         ],
                     })
                 } else if ok {
-                    Value::Str(normalize_pieces(pieces))
+                    Value::Str(Self::finish_pieces(pieces))
                 } else if loc == p.default_locale() {
                     // cannot reference in the default locale: make it a plain key instead
                     Value::Str(vec![Piece::Text(self.text(&tag))])
